@@ -41,6 +41,45 @@ CHECKS = {
  "C08": ("Theorems: every strict prefix of every encoding is an error on layers A and B; more generally cutting "
          "inside what any successful decode consumed yields an error. Tie: every cut of generated encodings.",
          "6 C08", TB),
+ "C09": ("Theorems: the general round trip threads the string table through every codec (DeduplicatedString is a "
+         "primitive of the type language; evolved records register header names when opened), so any arrangement of "
+         "dedup/plain strings decodes to what was written and the reader ends with the writer's table; first occurrence "
+         "= plain string bytes; ids 1,2,.. in first-occurrence order; a repeat = var_i32(-id) of at most 5 bytes; an id "
+         "never introduced is InvalidStringId. Tie: repetition-heavy streams over a tiny alphabet incl. header names.",
+         "6 C09", "Reading with a different definition while dedup strings are in use is outside the property (DESIGN 9.4). "
+         "Limit: fewer than 2^31 distinct strings per stream. " + TB),
+ "C10": ("Theorems about the canonical codec over the two reference-tracking primitives (Graph.v, mirrored by "
+         "harness/src/graph.rs on Rc<Node>): encoding terminates on cyclic graphs with fuel |g|+1; the table is duplicate-"
+         "free, starts with the root and is exactly the reachable set; decode(encode g) = g restricted to reachable nodes "
+         "renumbered by first encounter (isomorphism: injective, label- and edge-order-preserving), any suffix untouched; "
+         "an id never introduced is InvalidRefId; a known object is written as its id only. Tie: all rooted digraphs with "
+         "<= 3 nodes, random to 40 nodes, against model and an independent Python DFS.",
+         "6 C10", "The theorems are about the model of the codec; the library primitives themselves (HashMap keyed by "
+         "*const dyn Any) are tied by the correspondence run. " + TB),
+ "C12": ("Theorems: sequence bytes do not depend on the container kind; what container k1 wrote decodes under k2 to the "
+         "same elements collected into k2; the unknown-length form decodes identically for every container kind; byte "
+         "containers are interchangeable. Tie: full source x target matrix, maps from lists of pairs, unknown form "
+         "produced by the model and by serialize_iterator with an inexact size hint.",
+         "6 C12", TB),
+ "C13": ("Theorems: layout 00 ++ var_u32(index) ++ record; index = declaration position or position in the stable "
+         "byte-lexicographic sort (permutation + sortedness proved); appended constructors leave old data's meaning "
+         "unchanged; unknown index -> InvalidConstructorId for every index and suffix; transient constructors -> the "
+         "dedicated errors in both directions. Tie: static route (real derive macro on the compiled catalogue: families "
+         "E, E+1, E+2, sorted families, transient positions) and dynamic route with random extensions.",
+         "6 C13", TB),
+ "C14": ("Theorems: values agreeing on non-transient fields encode identically (bytes, table, errors); decoding yields "
+         "the declared defaults (normv); transient constructor -> SerializingTransientConstructor; declarations whose "
+         "FieldMadeOptional names are written or removed/transient never fail with UnknownFieldReference. Tie: static and "
+         "dynamic pairs differing only in transient fields; histories containing FieldMadeTransient.",
+         "6 C14", TB),
+ "C17": ("Theorems: for every value (well-typed or not) and well-formed declarations the encoder model - which contains "
+         "every u8/i8 counter overflow, -(i8::MIN), buffer index, unwrap and the 255-step assertion of the Rust - never "
+         "panics except for the i32 string-id counter, which needs 2^31-1 distinct strings already in the stream; the "
+         "table only grows; legal declarations never yield UnknownFieldReference. Tie: every Unicode scalar value, "
+         "lengths and size hints around 2^31 / 2^32 / usize::MAX, unsupported values nested anywhere, transient "
+         "constructors, dangling steps, 254 steps; release and debug.",
+         "6 C17", "Exact error class per input (C17_errors) is checked by correspondence, not proved. DateTime<FixedOffset> "
+         "(F16) is outside the modelled vocabulary. " + TB),
  "C11": ("Theorems over all of N/Z (no enumeration) about the transcription of write_var_u32/i32, read_var_u32/i32 and "
          "the three sources: round trip through any refining source, the three sources refine, bytes = LEB128, minimal "
          "length, continuation bits, zig-zag closed form and bijection, sink agreement. Tie: boundary/random/all-small "
